@@ -13,7 +13,7 @@ import vplib as V
 
 PROP_FILES = [os.path.join(V.PROPS, "C02.v")]
 TV_RTOL = 1e-9
-NOBL = 3
+NOBL = 4
 
 
 def by_prog(tags, key):
@@ -61,6 +61,7 @@ def run(ctx):
     oracle_checks = 0
     worst = 0.0
     sign_only_total = 0
+    euler_n = 0
     leaky = []
     for cfg in impl["configs"]:
         name = cfg["name"]
@@ -90,6 +91,18 @@ def run(ctx):
                 V.violation(ctx, "translation validation output missing for %s/%s" % (name, pn),
                             {"broken": "correspondence: translation validation", "coq_error": V.coq_error(r["out"])},
                             found_input=False)
+            # --- Euler's relation, numerically: enclosure of the (0,V,N,0)-directional derivative vs enclosure of A
+            eul = by_prog(tags, "EULER").get(pn)
+            if isinstance(eul, list):
+                for si, pair_ in enumerate(eul):
+                    a, d = V.interval_of(pair_[0]), V.interval_of(pair_[1])
+                    if a is None or d is None:
+                        continue
+                    euler_n += 1
+                    if d[1] < a[0] - 1e-9 * abs(a[0]) or d[0] > a[1] + 1e-9 * abs(a[1]):
+                        V.violation(ctx, "Euler's relation fails for %s/%s: A in %r but V dA/dV + sum N dA/dN in %r" % (name, pn, a, d),
+                                    {"broken": "gen/C02/%s.v EULER (verified enclosures)" % name, "state": prog["tv_states"][si],
+                                     "A": a, "directional_derivative": d}, found_input=True)
             if prog["unsupported"]:
                 V.violation(ctx, "%s uses operations the lowering does not support: %s" % (name, prog["unsupported"][:3]),
                             {"broken": "translator", "unsupported": prog["unsupported"]}, found_input=False)
@@ -121,7 +134,7 @@ def run(ctx):
                 except V.InfraError as e:
                     ctx.notes.append("search failed to run: %s" % e)
             what = "degree obligation failed for %s (output degrees %s, homogeneity lost at instruction %s)" % (name, degs, fns)
-            rp = {"broken": "gen/C02/%s.v: P*_homogeneous_check / P*_events_check / P*_cmp_check" % name, "config": name,
+            rp = {"broken": "gen/C02/%s.v: P*_homogeneous_check / P*_events_check / P*_cmp_check / P*_scoped" % name, "config": name,
                   "coq_error": V.coq_error(r["out"]), "degrees": str(degs), "first_none": str(fns)}
             if fails:
                 rp["failing"] = fails
@@ -142,13 +155,13 @@ def run(ctx):
         "library_theorems": lib_obl,
         "library_files": [os.path.relpath(d, V.VERIF) for d in deps],
         "axioms_reported": sorted(axioms),
-        "translation_validation_points": tv_n,
+        "translation_validation_points": tv_n, "euler_relation_enclosure_comparisons": euler_n,
         "observed_values_of_nonzero_degree_(sign_only_invariance)": sign_only_total,
         "programs_with_reinjected_f64_values": leaky,
         "oracle_identity_evaluations": oracle_checks,
         "oracle_worst_relative_residual": worst,
         "samples": samples,
-        "rule": "one program per distinct trace shape of each model configuration (contributions + T*sum), 3 obligations each; "
+        "rule": "one program per distinct trace shape of each model configuration (contributions + T*sum), 4 obligations each; "
                 "translation validation at random states; oracle = Euler/Gibbs-Duhem/scaling identities on the State API, lambda in [1e-3,1e3]",
     }
     V.write_evidence(ctx, "proof", cov, [
